@@ -6,7 +6,10 @@ import re
 import shutil
 import vcommon as vc
 
-RULE = ("histories of 2-6 phases over one file; a phase is an AN session (ANstart .. ANend: ANcreate/ANcreatef on 9 "
+RULE = ("histories of 2-6 phases over one, two or three files used alternately in one process (names where one is a "
+        "prefix or suffix of another, or of equal length), each file with its own AN session and identifiers; DFAN "
+        "bursts alternate between the files without DFANclear in between, also while another file's AN session is "
+        "open; a phase is an AN session (ANstart .. ANend: ANcreate/ANcreatef on 9 "
         "interleaved targets, ANwriteann incl. rewrites longer and shorter, ANreadann with buffer sizes below/at/above "
         "the text length, ANannlen, ANselect, ANfileinfo, ANnumann, ANannlist, ANtagref2id, ANid2tagref, ANget_tagref, "
         "ANendaccess, an identifier bijection probe) or a DFAN phase on the closed file (DFANputlabel/DFANputdesc incl. "
@@ -18,7 +21,8 @@ RULE = ("histories of 2-6 phases over one file; a phase is an AN session (ANstar
         "(must FAIL).  A history is non-trivial when >= 1 annotation was written and read back; distinct by op text")
 TRUSTED = ["Coq 8.16.1 kernel", "extraction (ExtrOcamlBasic only; Z/positive/nat inductive)",
            "translator gen/gen_consts.py + plugin gen/plugins/an_tables.py (constants, AN_CREATE_KEY/AN_KEY2REF/"
-           "AN_KEY2TYPE, type<->tag switch tables, UINT16ENCODE/DECODE byte expressions, buffer-truncation conditions)",
+           "AN_KEY2TYPE, type<->tag switch tables, UINT16ENCODE/DECODE byte expressions, buffer-truncation conditions, the "
+           "DFANIopen same-file test with strncmp/strlen mapped to coq/ANLang.v)",
            "OCaml drivers extract/anspec_main.ml, extract/anmodel_main.ml; C harness harness/drive_an.c; generator and "
            "comparison in checks/C11.py",
            "modelled, not verified: the element layer under the annotations (Hstartwrite/Hwrite/Hread/Hlength/"
@@ -27,7 +31,8 @@ TRUSTED = ["Coq 8.16.1 kernel", "extraction (ExtrOcamlBasic only; Z/positive/nat
 ASSUMPTIONS = ["domain: annotation texts are non-empty; label texts contain no NUL byte; read buffers have >= 1 byte "
                "(DFANlablist: >= 2); the DFAN calls are made while no AN session is open on the file and DFANclear() "
                "is called when an AN session ends (documented usage after a file was changed through another "
-               "interface); one file, one AN session at a time; refs stay far below 65535 (C20 covers the limit)",
+               "interface); one AN session per file at a time; file names are C strings shorter than DF_MAXFNLEN; refs stay far "
+               "below 65535 (C20 covers the limit)",
                "where an object carries several labels/descriptions the single-annotation DFAN calls may return any "
                "of them (the model M says which one)"]
 
@@ -219,30 +224,99 @@ def gen_df_phase(r, sh, lines, malformed, nops):
             lines.append("dflablist %d %d" % (r.choice([700, 700, 701, 702]), r.choice([1, 2, 3, 5, 16, 17, 64, 400])))
 
 
-def gen_history(r, name, malformed=False):
-    sh = Shadow()
-    lines = ["history " + name]
-    for _ in range(r.randrange(2, 7)):
-        if r.random() < 0.6:
-            gen_an_phase(r, sh, lines, malformed, r.randrange(4, 30))
+NAME_SETS = [
+    # one name a prefix of the other (both orders of use occur), a suffix, equal length, and mixtures of three
+    ["%s.hdf.bak", "%s.hdf"], ["%s.hdf", "%s.hdf.bak"], ["x%s.hdf", "%s.hdf"], ["%s.hda", "%s.hdb"],
+    ["%s.hdf", "%s.hdf.bak", "x%s.hdf"], ["%s.hdfx", "%s.hdf", "%s.hd"], ["%s.hdf.1", "%s.hdf.2", "%s.hdf"],
+]
+
+
+def gen_df_burst(r, sh, lines, n):
+    """a few file-name based DFAN calls (the ones that go through DFANIopen and the cached directory)"""
+    for _ in range(n):
+        tg = r.choice(TARGETS[:5])
+        x = r.random()
+        if x < 0.30:
+            txt = gen_text(r, True)
+            lines.append("dfputlabel %d %d %s" % (tg[0], tg[1], hexs(txt)))
+            if not any(a["type"] == 0 and a["target"] == tg for a in sh.anns):
+                sh.anns.append(dict(type=0, target=tg, written=len(txt)))
+        elif x < 0.50:
+            txt = gen_text(r, False)
+            lines.append("dfputdesc %d %d %s" % (tg[0], tg[1], hexs(txt)))
+            if not any(a["type"] == 1 and a["target"] == tg for a in sh.anns):
+                sh.anns.append(dict(type=1, target=tg, written=len(txt)))
+        elif x < 0.80:
+            k = r.choice([0, 0, 1])
+            lines.append("%s %d %d %d" % (["dfgetlabel", "dfgetdesc"][k], tg[0], tg[1], r.choice([64, 400, 9])))
+        elif x < 0.90:
+            lines.append("%s %d %d" % (r.choice(["dfgetlablen", "dfgetdesclen"]), tg[0], tg[1]))
         else:
-            gen_df_phase(r, sh, lines, malformed, r.randrange(2, 14))
-    # full read-back after a reopen, through both interfaces
-    lines.append("start")
-    for t in range(4):
-        lines.append("selectall %d" % t)
-    s = 0
-    for t in range(4):
-        for i in range(min(sh.count(t), 10)):
-            lines.append("select %d %d %d" % (s, t, i))
-            lines.append("read %d 400" % s)
-            s += 1
-    for tg in TARGETS[:4]:
-        lines.append("annlist %d %d %d" % (r.choice([0, 1]), tg[0], tg[1]))
-    lines += ["ids", "end", "dfgetfids", "dfgetfdss", "dflablist 700 64"]
-    for tg in TARGETS[:3]:
-        lines.append("dfgetlabel %d %d 400" % tg)
-        lines.append("dfgetdesc %d %d 400" % tg)
+            lines.append("dflablist %d %d" % (r.choice([700, 701]), r.choice([16, 64])))
+
+
+def gen_history(r, name, malformed=False):
+    lines = ["history " + name]
+    nfiles = r.choice([1, 1, 2, 2, 2, 3, 3])
+    if nfiles > 1:
+        ns = r.choice([x for x in NAME_SETS if len(x) == nfiles])
+        lines.append("names " + " ".join(n % name for n in ns))
+    shs = [Shadow() for _ in range(nfiles)]
+    cur = [0]
+
+    def switch(f):
+        if nfiles > 1 and (f != cur[0] or r.random() < 0.1):
+            lines.append("file %d" % f)
+        cur[0] = f
+
+    for _ in range(r.randrange(2, 7)):
+        x = r.random()
+        f = r.randrange(nfiles)
+        if x < 0.35:
+            switch(f)
+            tmp = []
+            gen_an_phase(r, shs[f], tmp, malformed, r.randrange(4, 30))
+            if nfiles > 1 and r.random() < 0.3:
+                # DFAN calls on another file while this file's AN session is still open
+                g = r.choice([k for k in range(nfiles) if k != f])
+                lines.extend(tmp[:-1])
+                switch(g)
+                gen_df_burst(r, shs[g], lines, r.randrange(1, 5))
+                switch(f)
+                lines.append(tmp[-1])
+            else:
+                lines.extend(tmp)
+        elif x < 0.60 or nfiles == 1:
+            switch(f)
+            gen_df_phase(r, shs[f], lines, malformed, r.randrange(2, 14))
+        else:
+            # the files used alternately through the single-file interface, no DFANclear in between
+            for _ in range(r.randrange(4, 13)):
+                g = r.randrange(nfiles)
+                switch(g)
+                gen_df_burst(r, shs[g], lines, r.randrange(1, 4))
+    # full read-back of every file after a reopen, through both interfaces
+    for f in range(nfiles):
+        sh = shs[f]
+        switch(f)
+        lines.append("start")
+        for t in range(4):
+            lines.append("selectall %d" % t)
+        s = 0
+        for t in range(4):
+            for i in range(min(sh.count(t), 10)):
+                lines.append("select %d %d %d" % (s, t, i))
+                lines.append("read %d 400" % s)
+                s += 1
+        for tg in TARGETS[:4]:
+            lines.append("annlist %d %d %d" % (r.choice([0, 1]), tg[0], tg[1]))
+        lines += ["ids", "end", "dfgetfids", "dfgetfdss", "dflablist 700 64"]
+    for _ in range(2 if nfiles > 1 else 1):
+        for f in range(nfiles):
+            switch(f)
+            for tg in TARGETS[:3]:
+                lines.append("dfgetlabel %d %d 400" % tg)
+                lines.append("dfgetdesc %d %d 400" % tg)
     return lines
 
 
